@@ -78,14 +78,14 @@ type FlowP struct {
 	InstrFlow bool       `json:"instr_flow,omitempty"`
 	// EmitShared: the first emitter is a (nested) stack shared by every
 	// execution of the run, as a process-wide emitter would be.
-	EmitShared bool  `json:"emit_shared,omitempty"`
+	EmitShared bool `json:"emit_shared,omitempty"`
 	// EmitSlice: the two emitters are passed as cff.EmitterStack(s...) where s
 	// is a slice (starting with cff.NopEmitter()) that the whole run shares.
 	EmitSlice bool  `json:"emit_slice,omitempty"`
-	OptSeed   int64 `json:"opt_seed"` // shuffles the option order
-	WrapArgs   bool  `json:"wrap_args"`           // wrap directive arguments in rt.Arg probes
-	ErrIdent   bool  `json:"err_ident,omitempty"` // a directive argument mentions the user's variable err
-	Generic    bool  `json:"generic,omitempty"`   // the enclosing function is generic; TParam types are its type parameters
+	OptSeed   int64 `json:"opt_seed"`            // shuffles the option order
+	WrapArgs  bool  `json:"wrap_args"`           // wrap directive arguments in rt.Arg probes
+	ErrIdent  bool  `json:"err_ident,omitempty"` // a directive argument mentions the user's variable err
+	Generic   bool  `json:"generic,omitempty"`   // the enclosing function is generic; TParam types are its type parameters
 	// MutArg: the first cff.Params value is a bare variable, and the next
 	// argument in source order is a call that overwrites that variable (with
 	// MutVal) as a side effect: the value read must still be the original.
